@@ -102,7 +102,7 @@ def run(ctx):
         obs.extra['exhaustive_complete'] = 1
 
     # ---- part 2: file round trips ------------------------------------------------------------------------
-    total = ctx.n(320, 6000)
+    total = ctx.n(320, 24000)
     for case, rng in ctx.cases(total, stream='files'):
         conv = CONVENTIONS[(case + case // len(tu.OFFSETS)) % len(CONVENTIONS)]
         off = tu.OFFSETS[case % len(tu.OFFSETS)]
